@@ -35,7 +35,8 @@ class Diagnostic:
         diag = diagnostic_json(
             self.sline, schar, self.sline, echar, self.message, self.severity
         )
-        if self.has_related:
+        # Entities of the intrinsic modules have no file to point at
+        if self.has_related and self.related_path is not None:
             diag["relatedInformation"] = [
                 {
                     **location_json(
